@@ -537,6 +537,30 @@ func c12r3(c *core.Ctx) {
 		} else {
 			c.Undecided("getter:"+wrapper, token.NoPos, "GetValue not found")
 		}
+		// the getters of the declared range: a bound the metadata does not declare is nil (about sixty catalogue constructors have no
+		// minimum, maximum or step), and "usable object" / "the typed getters never fail" covers them like the value getter
+		if wrapper == "Int" || wrapper == "Float" {
+			for _, gn := range []string{"GetMinValue", "GetMaxValue", "GetStepValue"} {
+				g := p.Func("characteristic", "(*"+wrapper+")."+gn)
+				if g == nil {
+					continue
+				}
+				tolerant, n := true, 0
+				core.Instrs(g, func(i ssa.Instruction) {
+					if ta, isTA := i.(*ssa.TypeAssert); isTA {
+						n++
+						x := ta.X
+						if !ta.CommaOk && !core.Dominated(ta, core.NonNilFact(func(v ssa.Value) bool { return v == x })) {
+							tolerant = false
+						}
+					}
+				})
+				if n > 0 {
+					c.Check(tolerant, "getter-tolerates-no-value:"+wrapper+"."+gn, g.Pos(), "the assertion on the declared bound is checked (no bound declared reads as the zero value)",
+						wrapper+"."+gn+" asserts the type of the declared bound unchecked: a characteristic whose metadata declares no such bound (NewActive().GetMaxValue(), NewCarbonDioxideLevel().GetStepValue(), every generic constructor) holds nil there and the getter panics")
+				}
+			}
+		}
 		// remote-update adapter closure
 		if g := p.Func("characteristic", "(*"+wrapper+").OnValueRemoteUpdate"); g != nil {
 			ok, n := true, 0
